@@ -176,7 +176,7 @@ impl Prop for Random {
             _ => Some(t.small(64)),
         };
         let td = TypeDef {
-            sty: (t.below(4) as u8) | if t.chance(1, 4) { 0x80 } else { 0 },
+            sty: (t.below(4) as u8) | if t.chance(1, 4) { 0x80 } else { 0 } | if t.chance(1, 2) { 0x10 } else { 0 },
             vis: true,
             name: "T".into(),
             size: size.map(|v| Num { v: v as i128, sp: 0 }),
@@ -186,6 +186,7 @@ impl Prop for Random {
                 Some(Vft {
                     size: None,
                     funcs: vec![Func {
+                        more: vec![],
                         sty: 0,
                         vis: true,
                         name: "vf".into(),
@@ -374,6 +375,7 @@ fn member_library(w: u64) -> Mod {
     v.vft = Some(Vft {
         size: None,
         funcs: vec![Func {
+            more: vec![],
             sty: 0,
             vis: true,
             name: "vf".into(),
@@ -503,6 +505,21 @@ impl Prop for Members {
             ..Default::default()
         };
         let mut m = lib;
+        // the empty helper in its body-less form `type Empty;`, sometimes with layout attributes of its own
+        if let Item::Type(e) = &mut m.items[0] {
+            if t.chance(1, 2) {
+                e.sty |= 0x10;
+            }
+            match t.below(6) {
+                0 => e.align = Some(Num::d(*t.pick(&[1i128, 2, 4, 8, 16]))),
+                1 => e.size = Some(Num::d(*t.pick(&[0i128, 4, 8, 16, 24]))),
+                2 => {
+                    e.size = Some(Num::d(*t.pick(&[8i128, 16, 24, 20])));
+                    e.align = Some(Num::d(*t.pick(&[4i128, 8, 16])));
+                }
+                _ => {}
+            }
+        }
         m.items.push(Item::Type(td));
         MCase { prog: Prog { mods: vec![m] }, w }
     }
